@@ -46,8 +46,35 @@ def canon(x):
 OPS = {"mul": operator.mul, "div": operator.truediv, "add": operator.add, "sub": operator.sub, "eq": operator.eq,
        "ne": operator.ne, "lt": operator.lt, "le": operator.le, "gt": operator.gt, "ge": operator.ge}
 
+def render_routes(u):
+    str(u); repr(u); format(u, ""); format(u, "/")
+    try: u._repr_html_()
+    except Exception: pass
+
+def product_dim(u):
+    d = measured.Number
+    for f, e in u.factors.items():
+        if f is One: continue
+        d = d * f.dimension ** e
+    return d
+
+def prelude(pairs):
+    """render (in every format the library offers) units and quantities whose numerator / denominator parts are the
+    products the later operations will produce, BEFORE those products are first computed by arithmetic"""
+    cd = Unit._by_name.get("candela") or One
+    for a, b in pairs:
+        try:
+            ua, ub = mk_unit(a), mk_unit(b)
+            w = (cd * ua ** -1) * ub ** -1
+            render_routes(w); render_routes(Quantity(2, w)); format(Quantity(2, w), ":/")
+            w2 = (cd ** -1 * ua) * ub
+            render_routes(w2)
+        except Exception:  # noqa
+            pass
+
 def run(data):
     res = []
+    prelude(data.get("prelude", []))
     for c in data["cases"]:
         rec = {}
         try:
@@ -75,6 +102,13 @@ def run(data):
             if type(ex).__name__ in ("InvalidOperation", "DivisionByZero", "DivisionUndefined"): e = "ZeroDivisionError"
             rec["res"] = {"err": e, "msg": str(ex)[:100]}
         res.append(rec)
-    return {"results": res}
+    # C03's observable on every unit the run produced: reported dimension = product of the factors' dimensions
+    bad = []
+    for u in list(Unit._known.values()):
+        try:
+            if product_dim(u) is not u.dimension: bad.append(C.unit(u))
+        except Exception:  # noqa
+            pass
+    return {"results": res, "inconsistent_units": bad[:5]}
 
 implib.main_io(run)
